@@ -42,6 +42,9 @@ def cmdC10 (j : Json) : R Json := do
     -- the later calculation written in terms of intermediate results made before the selector steps
     ("downvia", Json.arr (states.map fun r =>
         let d := Stats.downstreamVia k c r.value r.error
+        Json.arr #[putFB d.1, putFB d.2]).toArray),
+    ("downsq", Json.arr (states.map fun r =>
+        let d := Stats.downstreamSq k r.value r.error
         Json.arr #[putFB d.1, putFB d.2]).toArray)]
   let extra ← match (← optFBList j "ys") with
     | none => pure []
